@@ -1831,6 +1831,11 @@ func (f *Frame) siteCall(c *ssa.CallCommon, pos token.Pos) {
 	if len(rc.Sites) == 0 {
 		return
 	}
+	if f.parent != nil && f.fn.Parent() == nil {
+		// a helper function executed in place: the site conditions of the enclosing contract speak about the calls
+		// written in that function (and in its closures), not about calls inside its helpers
+		return
+	}
 	f.siteCallee = ""
 	if fn := c.StaticCallee(); fn != nil {
 		f.siteCallee = fn.String()
